@@ -244,8 +244,21 @@ class World:
         inst = sw.software.get("database-service") is db
         ftpc = sw.software.get("ftp-client")
         port = inst and any(v is db for v in sw.port_protocol_mapping.values())
-        svc = f"{db.operating_state.name},{db.health_state_actual.name}" if inst else "absent,absent"
-        fcs = "-" if ftpc is None else f"{ftpc.operating_state.name}:{ftpc.health_state_actual.name}:{1 if len(ftpc.connections) else 0}"
+        def cds(x):
+            # the countdowns, shown while they are live: RESTARTING(n) / FIXING(n); a FIXING service without a number shows FIXING(None)
+            rst = f"({x.restart_countdown})" if x.operating_state.name == "RESTARTING" else ""
+            fix = f"({x._fixing_countdown})" if x.health_state_actual.name == "FIXING" else ""
+            return rst, fix
+        if inst:
+            rst, fix = cds(db)
+            svc = f"{db.operating_state.name}{rst},{db.health_state_actual.name}{fix}"
+        else:
+            svc = "absent,absent"
+        if ftpc is None:
+            fcs = "-"
+        else:
+            rst, fix = cds(ftpc)
+            fcs = f"{ftpc.operating_state.name}{rst}:{ftpc.health_state_actual.name}{fix}:{1 if len(ftpc.connections) else 0}"
         def dels(name):
             fo = srv.file_system.get_folder(name)
             return "" if fo is None else "/".join(f.health_status.name for f in fo.deleted_files.values() if f.name == "database.db")
@@ -1044,14 +1057,19 @@ def gen_cycles_and_run(rng: Rng):
     return case, sc.out
 
 
-def gen_fixrace_and_run(rng: Rng):
+FIXRACE_HALTS = ["stop", "pause", "disable", "restart", "poweroff", "ftpcstop", "none"]
+# every (halt, j, c) with c in 0..3 and j <= c: 7 x 10 = 70 combinations - small enough to ENUMERATE (round 7)
+FIXRACE_ALL = [(h, j, c) for h in FIXRACE_HALTS for c in range(4) for j in range(c + 1)]
+
+
+def gen_fixrace_and_run(rng: Rng, force=None):
     """A FIXING countdown racing a lifecycle change: damage, `fix` (countdown c), after j <= c ticks the service is stopped /
     paused / disabled / restarted / its node powered off / (control) the FTP client stopped / nothing; ticks through the end of
     the countdown (a completing fix calls restore_backup()), a direct restore while halted, the halt undone, restore again.
     Every lifecycle state x countdown offset is drawn over the runs (histogram `fixrace:`)."""
     def tweak(case):
         case["bkcfg"] = True
-        case["fix"] = rng.choice([0, 1, 2, 3, 3])
+        case["fix"] = force[2] if force else rng.choice([0, 1, 2, 3, 3])
         case["restart"] = rng.choice([0, 1, 2])
         case["clients"][0]["pw"] = case["srv_pw"]
     sc = _Script(rng, "fixrace", tweak)
@@ -1061,16 +1079,16 @@ def gen_fixrace_and_run(rng: Rng):
         e = lambda op: sc.emit(w, op)   # noqa: E731
         e(["tick"] if rng.chance(1, 2) else ["backup"])
         e(["connect", 0])
-        for _ in range(rng.range(1, 3)):
+        for rnd in range(rng.range(1, 3)):
             act = [j for j, h in enumerate(sc.rec.handles) if h.is_active]
             e(["hq", rng.choice(act), rng.choice(["DELETE", "DELETE", "ENCRYPT"])] if act else ["fcor"])
             if rng.chance(1, 3):
                 e(["svc", "compromise"])
             e(["svc", "fix"])
-            j = rng.below(case["fix"] + 1)
+            j = force[1] if force and rnd == 0 else rng.below(case["fix"] + 1)
             for _ in range(j):
                 e(["tick"])
-            halt = rng.choice(["stop", "pause", "disable", "restart", "poweroff", "ftpcstop", "none", "stop", "pause"])
+            halt = force[0] if force and rnd == 0 else rng.choice(FIXRACE_HALTS + ["stop", "pause"])
             case.setdefault("fixrace", []).append([halt, j, case["fix"]])
             undo = []
             if halt in ("stop", "pause", "disable", "restart"):
@@ -1096,6 +1114,118 @@ def gen_fixrace_and_run(rng: Rng):
             if act:
                 e(["hq", rng.choice(act), "SELECT"])
     return case, sc.out
+
+
+def gen_countdowns_and_run(rng: Rng, c: int, r: int):
+    """ENUMERATED (round 7): the two countdowns of the database service for every pair (fixing_duration c, restart_duration r) in
+    0..3 x 0..3, one tick at a time with the digest (which shows RESTARTING(n) / FIXING(n)) compared after every tick: `fix` from
+    GOOD and from COMPROMISED (and refused while FIXING), through the end and two ticks beyond; `restart` from RUNNING (refused by
+    the validator while PAUSED / RESTARTING), through the end and two beyond; then both at once; the same for the FTP client."""
+    def tweak(case):
+        case["bkcfg"] = True
+        case["fix"], case["restart"] = c, r
+        case["clients"][0]["pw"] = case["srv_pw"]
+    sc = _Script(rng, "countdowns", tweak)
+    with instrumented(sc.rec):
+        w = World(sc.case, sc.rec)
+        e = lambda op: sc.emit(w, op)   # noqa: E731
+        e(["tick"])                      # timestep 1: the automatic backup
+        e(["connect", 0])
+        for first in rng.shuffle(["good", "compromised"]):
+            if first == "compromised":
+                e(["hq", 0, "DELETE"])
+                e(["svc", "compromise"])
+            e(["svc", "fix"])
+            e(["svc", "fix"])            # refused while FIXING
+            for _ in range(c + 2):
+                e(["tick"])
+                e(["hq", 0, "SELECT"])
+        e(["svc", "pause"])
+        e(["svc", "restart"])            # validator: RUNNING only
+        e(["svc", "resume"])
+        e(["svc", "restart"])
+        e(["svc", "restart"])            # refused while RESTARTING
+        for _ in range(r + 3):
+            e(["tick"])
+            e(["connect", 0])
+        e(["hq", 0, "ENCRYPT"])
+        e(["svc", "fix"])
+        e(["svc", "restart"])            # both countdowns at once: the fix step runs first, the restore needs a RUNNING service
+        for _ in range(max(c, r) + 3):
+            e(["tick"])
+        e(["hq", 0, "SELECT"])
+        e(["adm", "ftpc", "fix"])
+        e(["adm", "ftpc", "restart"])
+        for _ in range(7):
+            e(["tick"])
+        e(["restore"])
+    return sc.case, sc.out
+
+
+SQLGRID_ALL = [(f, h, q) for f in ("GOOD", "COMPROMISED", "CORRUPT", "absent") for h in ("GOOD", "COMPROMISED", "FIXING")
+               for q in ("SELECT", "DELETE", "ENCRYPT", "INSERT", "PGSTAT", "OTHER")]
+PWGRID_ALL = [(sp, cp) for sp in (None, 0, 1, 2) for cp in (None, 0, 1, 2)]
+
+
+def gen_sqlgrid_and_run(rng: Rng, fhealth: str, health: str, q: str):
+    """ENUMERATED (round 7): `_process_sql` on the full grid file state (GOOD / COMPROMISED / CORRUPT / no live file) x service
+    health (GOOD / COMPROMISED / FIXING) x query (the five known ones and an unknown one): 72 cells, each asked over a live
+    connection, over a never-issued id, over a closed id, and followed by a SELECT."""
+    def tweak(case):
+        case["bkcfg"] = True
+        case["fix"] = 3
+        case["max"] = max(case["max"], 3)
+        case["clients"][0]["pw"] = case["srv_pw"]
+    sc = _Script(rng, "sqlgrid", tweak)
+    with instrumented(sc.rec):
+        w = World(sc.case, sc.rec)
+        e = lambda op: sc.emit(w, op)   # noqa: E731
+        e(["connect", 0])
+        e(["connect", 0])
+        e(["hd", 1])
+        if fhealth == "COMPROMISED":
+            e(["hq", 0, "DELETE"])
+        elif fhealth == "CORRUPT":
+            e(["fcor"] if rng.chance(1, 2) else ["hq", 0, "ENCRYPT"])
+        elif fhealth == "absent":
+            e(["fdel"])
+        if health == "COMPROMISED":
+            e(["svc", "compromise"])
+        elif health == "FIXING":
+            e(["svc", "fix"])
+        e(["hq", 0, q])
+        e(["rq", 0, 7, q])      # never issued
+        e(["rq", 0, 1, q])      # closed
+        e(["rq", 0, None, q])   # no id at all
+        e(["hq", 0, "SELECT"])
+    return sc.case, sc.out
+
+
+def gen_pwgrid_and_run(rng: Rng, spw, cpw):
+    """ENUMERATED (round 7): server password x client password over {None, "", two distinct strings}: 16 cells; connect, then the
+    other red / native paths with the same pair, then wrong-then-right and right-then-changed-on-the-server."""
+    def tweak(case):
+        case["srv_pw"] = spw
+        case["max"] = 100
+        for c in case["clients"]:
+            c["pw"] = cpw
+    sc = _Script(rng, "pwgrid", tweak)
+    with instrumented(sc.rec):
+        w = World(sc.case, sc.rec)
+        e = lambda op: sc.emit(w, op)   # noqa: E731
+        e(["connect", 0])
+        e(["nc", 0])
+        e(["ex", 0])
+        e(["cpw", 0, spw])
+        e(["connect", 0])
+        for other in (None, 0, 1, 2):
+            e(["spw", other])
+            e(["connect", 0])
+            e(["hq", 0, "SELECT"])
+        e(["spw", spw])
+        e(["cpw", 0, cpw])
+        e(["connect", 0])
+    return sc.case, sc.out
 
 
 def gen_backups_and_run(rng: Rng):
